@@ -12,8 +12,9 @@ CLAIMED = {
          "note": TB + "hand-written model Model/UU.v tied by correspondence; Go slice semantics not modelled; perl 5.36 = 'Perl'.",
          "technique": "Coq proof (induction + finite sweeps) over a hand model + differential correspondence judged by vm_compute"},
  "C18": {"text": "Coq theorem: for EVERY payload the generated text lexes (POSIX word-lexer model that rejects every unquoted special character) to the "
-                 "header, one `echo` with exactly one literal word per row equal to the row, and the closing brace (quote safety, unbounded); rows = "
-                 "sorted distinct formatted TABDOC cells + self row by construction of the model. Model tied to GenFuncList byte-for-byte on ~500 "
+                 "header, one `echo` with exactly one literal word per row equal to the row, and the closing brace (quote safety, unbounded); rows are "
+                 "characterised for every payload: rows = compact(sort(formatted cells)) where cells = self row + one per TABDOC line (c18_rows_spec), "
+                 "membership, strict byte order (one row per DISTINCT line), independence of order and multiplicity of the tagged lines. Model tied to GenFuncList byte-for-byte on ~500 "
                  "hostile payloads per quick run; dash and bash run a sample (test).",
          "note": TB + "ShLex is our reading of POSIX quoting (validated on dash/bash samples); tabwriter modelled for one column without TAB/VT/FF/0xFF.",
          "technique": "Coq proof (induction on the row bytes through a lexer automaton) + differential correspondence judged by vm_compute"},
@@ -54,7 +55,7 @@ CLAIMED.update({
  "C06": {"text": "Coq theorem over EVERY operation history: if both slots are held and one holder is a half of /io request r, the other is a half "
                  "of the same request (corollary of the same-key invariant; keys of different requests differ). " + BRK + "All 24 admission orders "
                  "of two requests on 4 base states, 480 of the 1440 orders of three requests, random mixed histories; plus a stress TEST with "
-                 "really concurrent ConnectInOut calls (catches data races on the key counter, which the serialised harness cannot).",
+                 "really concurrent ConnectInOut calls, also under Go's race detector (catches data races on the key counter, which the serialised harness cannot).",
          "note": TB + "per-request key distinctness relies on Go's atomic counter (assumption; exercised by the stress test).",
          "technique": "Coq proof (invariant) + exhaustive admission-order correspondence judged by vm_compute + concurrent stress test"},
  "C04": {"text": "Coq theorems: a release cancels the peer, whose proxy (if running) has ended and logged its closure in the same step; exactly one "
@@ -63,7 +64,9 @@ CLAIMED.update({
                  "unbounded number of shells); Do may return only when shut down with both slots empty. " + BRK + "PARTIAL for 'nothing keeps "
                  "running': observed (goroutine dump after all transports closed, incl. flood with a stalled terminal; notice totals once the terminal "
                  "is drained), not proved. A real-scheduler shutdown-race test covers callers queued on the broker's mutex (stalled refusal notice "
-                 "inside the admission section, shutdown and a late attempt behind it): once Do has returned nothing is attached.",
+                 "inside the admission section, shutdown and a late attempt behind it): once Do has returned nothing is attached. Over the fine-grained "
+                 "proxyOut model: in ANY state, once cancelled, the reader goroutine and the forwarding loop can each leave within two of their own steps; "
+                 "the pre-repair reader is refuted (stuck for ever after flood + stall + cancel).",
          "note": TB + "goroutine/channel behaviour of proxyOut's reader is exercised, not modelled.",
          "technique": "Coq proof (invariants + per-step characterisations) + hook-serialised correspondence judged by vm_compute + leak observation"},
  "C02": {"text": "Coq theorems for every queue, writer kind and failure point: lines written (each + exactly one newline) followed by lines still "
@@ -74,18 +77,22 @@ CLAIMED.update({
          "note": TB + "net/http's FlushError pushing bytes to the socket is outside; Go's select choice is explored, not modelled.",
          "technique": "Coq proof (induction over the delivery loop) + correspondence with scripted writers judged by vm_compute"},
  "C03": {"text": "Coq theorems: a read of the attached output stream is displayed exactly once, unmodified, before any closure notice of the step "
-                 "(also when returned together with the terminal error) and nothing else is ever displayed. PARTIAL: the model has an unbounded "
-                 "operator channel; proxyOut's bounded queues under a slow terminal are exercised (capacity 1-3, scripted drains) and judged by "
-                 "the monitor (shown = prefix of sent; complete before the close notice), not proved. Last hop (lib/opshell, Model/Terminal.v): theorem - "
+                 "(also when returned together with the terminal error) and nothing else is ever displayed (broker model, unbounded operator channel). "
+                 "Over a FINE-GRAINED model of proxyOut (reader goroutine, internal queue of 2, forwarding loop with both selects, operator channel of "
+                 "any capacity drained at the terminal's pace, cancellation anywhere; every event sequence): shown ++ waiting is always a chunk-wise "
+                 "prefix of what was read; a stream that ends by itself while attached has everything read before the end handed to the operator "
+                 "channel before proxyOut returns (so before the close notice); queues bounded. That model is tied to the code by replaying the "
+                 "stalled-terminal cases (capacity 1-3, scripted drains) on it: chunks logged/shown per block and the reader's run-ahead must agree. Last hop (lib/opshell, Model/Terminal.v): theorem - "
                  "however a byte sequence is cut into reads, the terminal is written that sequence with LF rendered CR LF (x/term, raw mode; proved "
                  "lossless); tied by 200 chunkings of UTF-8 / non-UTF-8 / control bytes through the real Shell with its output captured. " + BRK,
          "note": TB + "relative speeds are explored as orders inside synctest, not proved over a queue model.",
-         "technique": "Coq proof over the coarse model (partial) + read-script correspondence and stalled-terminal monitor judged by vm_compute"},
+         "technique": "Coq proof (invariants over all interleavings of a fine-grained concurrent model + coarse broker model) + read-script and stalled-terminal replay correspondence judged by vm_compute"},
  "C11": {"text": "Coq theorems: input 'Shell I/O' records = lines written, in order, minus at most the failing last one; each displayed chunk has "
                  "exactly one record with the same bytes; a refused attempt outside shutdown has exactly one error record. " + BRK + "Records are "
                  "captured through a mirror of the real slog.NewJSONHandler(w, nil) (level filtering as in the program); the monitor also checks "
                  "connect/disconnect records per stream and that the JSON output is one parsable object per line. PARTIAL: reconstruction of a "
-                 "whole session from the log is checked by the monitor, not proved. Stalled-terminal and cancelled-flood cases: nothing undelivered is logged.",
+                 "whole session from the log is checked by the monitor, not proved. Stalled-terminal and cancelled-flood cases: nothing undelivered is logged "
+                 "(theorem c11_queue_logged_is_delivered over the fine-grained proxyOut model, every interleaving).",
          "note": TB + "slog's JSON escaping is standard library (framing checked, escaping not modelled).",
          "technique": "Coq proof (per-step characterisations) + correspondence with a mirrored JSON handler judged by vm_compute"},
 })
